@@ -76,10 +76,10 @@ class EventLog(object):
         self.cap = cap
         self._tokens = {}
 
-    def emit(self, kind, **payload):
+    def emit(self, kind_, **payload):
         if len(self.events) >= self.cap:
             raise StepCapExceeded("event cap %d exceeded" % self.cap)
-        self.events.append((kind, payload))
+        self.events.append((kind_, payload))
         return len(self.events) - 1
 
     @property
